@@ -20,10 +20,17 @@ def caseOfJ (c : J) : SyncCase :=
     cache, parent, calls := (c.getArr "calls").map Rec.ofJ,
     outcome := result.getStr "outcome", after := recordedAfter result, cacheIntact := c.getBool "cacheIntact" }
 
+/-- a clause starting with `[F-…]` names the recorded finding whose shape the failure has -/
+def findingOf (clause : String) : String :=
+  if clause.startsWith "[F-" then ((clause.drop 1).takeWhile (· != ']')).toString else ""
+
 def judge (r : Res) (p : String) (v : Option String) : Res :=
   match v with
   | none => pass r p
-  | some clause => fail r p clause
+  | some clause =>
+    let r' := fail r p clause
+    if findingOf clause != "" && r'.finding == "" then { r' with finding := findingOf clause } else r'
+
 
 /-- kind "sync": one real sync (processNextWorkItem) against the model, and the per-trace oracles -/
 def handleSync (c : J) : Res := Id.run do
@@ -39,16 +46,23 @@ def handleSync (c : J) : Res := Id.run do
     else
       let parts := (c.getStr "key").splitOn ":"
       syncDecoratorFull s.dcfg s.cache (parts.getD 0 "") (parts.getD 1 "") (parts.getD 2 "") (":".intercalate (parts.drop 3)) hidden
-  let (finH, st) := replay prog { recs := s.calls.map (·, false) } 600
+  let pk := (s.parentGR.1, s.parentGR.2, (s.parent.map getName).getD "")
+  let (finH, st) := replay prog { recs := s.calls.map (·, false), parentKey := pk } 600
   let fin := finH.map (·.final)
-  for m in st.mismatches do r := disagree r m
+  for m in st.mismatches do
+    r := disagree r m
+    r := tag r ("diff-" ++ ((m.drop 1).takeWhile (· != ']')).toString)
   match fin with
   | none => pure ()
   | some f =>
-    for x in unconsumed st do r := disagree r s!"implementation issued a request the model did not: {x.verb} {x.resource} {x.ns}/{x.name} {x.hook}"
+    for x in unconsumed st do
+      let area := if x.isHook then "hook" else if s.isParentTarget x then (if x.verb == "updateStatus" then "status" else "parent")
+                  else if x.isRevision then "revisions" else "children"
+      r := disagree r s!"[{area}] implementation issued a request the model did not: {x.verb} {x.resource} {x.ns}/{x.name} {x.hook}"
+      r := tag r ("diff-" ++ area)
     if outcomeName f.outcome != result.getStr "outcome" then
-      r := disagree r s!"outcome: model {outcomeName f.outcome} impl {result.getStr "outcome"} {result.getStr "detail"}"
-    if f.after != recordedAfter result then r := disagree r s!"addAfter: model {f.after} impl {recordedAfter result}"
+      r := tag (disagree r s!"[outcome] outcome: model {outcomeName f.outcome} impl {result.getStr "outcome"} {result.getStr "detail"}") "diff-outcome"
+    if f.after != recordedAfter result then r := tag (disagree r s!"[outcome] addAfter: model {f.after} impl {recordedAfter result}") "diff-outcome"
   -- oracles on the implementation's own trace
   r := judge r "C02" (oracleC02 s)
   r := judge r "C03" (oracleC03 s)
